@@ -146,7 +146,7 @@ def gen_case(rng):
     while i < len(stream):
         while rng.random() < pa:
             events.append(("a",))
-        k = rng.randint(1, maxk)
+        k = maxk if rng.random() < 0.3 else rng.randint(1, maxk)   # reads that fill the 256-byte request exactly are frequent
         events.append(("c", stream[i : i + k]))
         i += k
     while rng.random() < pa:
@@ -222,6 +222,9 @@ def run(R: core.Run):
         ([("c", b"x" * 256), ("c", b"y" * 255 + b"\n"), ("e",)], 4),
         ([("a",), ("a",), ("e",)], 4),
         ([("c", b"a\nb\nc\nd"), ("e",)], 7),
+        ([("c", (b"0123456\n" * 32)), ("c", b"tail\nmore"), ("e",)], 40),      # a full 256-byte read holding 32 lines, then data
+        ([("c", (b"0123456\n" * 32)), ("e",)], 36),                              # ... then close
+        ([("c", (b"x" * 255 + b"\n")), ("a",), ("c", b"y\n"), ("e",)], 6),
     ]
     run_batch(R, corpus, "corpus")
     cases = [gen_case(R.rng) for _ in range(R.n(3000, 60000))]
